@@ -8,8 +8,8 @@ import (
 
 func newRand(seed int64) *rand.Rand { return rand.New(rand.NewSource(seed)) }
 
-func cmdSim(tab *SymTab, rd *os.File, bw *bufio.Writer, workers int, iavl bool)   { panic("todo") }
-func cmdReplay(tab *SymTab, rd *os.File, bw *bufio.Writer)                        { panic("todo") }
+func cmdSim(tab *SymTab, rd *os.File, bw *bufio.Writer, workers int, iavl bool) { panic("todo") }
+func cmdReplay(tab *SymTab, rd *os.File, bw *bufio.Writer)                      { panic("todo") }
 func extraCommand(cmd string, tab *SymTab, rd *os.File, bw *bufio.Writer, workers, n, depth int, seed int64) bool {
 	switch cmd {
 	case "genesis":
